@@ -10,6 +10,7 @@ import (
 	"encoding/binary"
 	"io"
 	"math"
+	"os"
 )
 
 // handleRead handles NFSPROC3_READ - read from file
@@ -247,6 +248,19 @@ func (h *NFSProcedureHandler) handleCommit(body io.Reader, reply *RPCReply, auth
 	attrs, err := h.server.handler.GetAttr(node)
 	if err != nil {
 		return nfsErrorWithWcc(reply, mapError(err)), nil
+	}
+
+	// Flush the file to stable storage before acknowledging the commit
+	if attrs.Mode.IsRegular() {
+		f, err := h.server.handler.fs.OpenFile(node.path, os.O_RDONLY, 0)
+		if err != nil {
+			return nfsErrorWithWcc(reply, mapError(err)), nil
+		}
+		syncErr := f.Sync()
+		f.Close()
+		if syncErr != nil {
+			return nfsErrorWithWcc(reply, mapError(syncErr)), nil
+		}
 	}
 
 	var buf bytes.Buffer
